@@ -54,13 +54,20 @@ def norm_assign(ga):
   return {k: sorted(getattr(ga, k)) for k in ['all', 'c', 't', 'x', 'c_fixed', 't_fixed', 'x_fixed', 'ct', 'cx', 'ctx', 'tx']}
 
 
+def _num(v, f):
+  """NaN-safe normalisation (NaN != NaN would make equal answers look different)."""
+  if v is None:
+    return None
+  return 'nan' if v != v else f(v)
+
+
 def norm_designs(ds):
   out = []
   for d in ds:
     nd = sl.norm_design(d)
     out.append((tuple(nd['t']), tuple(nd['c']), tuple(round(v, 12) if v == v else 'nan' for v in nd['score']),
-                None if nd.get('corr') is None else round(nd['corr'], 12),
-                None if nd.get('impact') is None else float('%.10g' % nd['impact'])))
+                _num(nd.get('corr'), lambda v: round(v, 12)),
+                _num(nd.get('impact'), lambda v: float('%.10g' % v))))
   return out
 
 
